@@ -325,6 +325,9 @@ structure SchedSt where
   armed  : List Nat := []
   active : List Nat := []
   acc    : List (Nat × Nat) := []
+  cleaner  : Bool := false      -- client=cleaner: the callback is cleaner.go's `clean`
+  outcomes : Outcomes := []
+  gx     : List Nat := []       -- keys whose next callback calls runtime.Goexit (`boom k goexit`)
   late   : List String := []    -- requests of the callbacks of an `ltick`, received during the next operation
 
 def rqTok : Call → String
@@ -341,8 +344,10 @@ def insertStr (x : String) : List String → List String
 inductive SOp where
   | hold (k : Nat)
   | release (k : Nat)
+  | boomGx (k : Nat)    -- the next callback of k calls runtime.Goexit: in a tick the goroutine of the whole batch ends there
   | boom (k : Nat)      -- the next callback of k panics: recovered by RunSafe / GoSafe / the task runner, nothing else changes
   | calls (cs : List Call) (res : List String) (sortRq : Bool) (cache' : CacheL)
+  | add (k : Nat) (o : List Bool)     -- client=cleaner: AddCleanTask with a task of these outcomes
   | ltick
 
 def parseFetch (s : String) : Option (Fetch × String) :=
@@ -353,9 +358,11 @@ def parseFetch (s : String) : Option (Fetch × String) :=
 def parseSched (isCache : Bool) (c : CacheL) : List String → Option SOp
   | ["hold", k] => k.toNat?.map .hold
   | ["release", k] => k.toNat?.map .release
-  | ["boom", k, kind] => if kind = "err" ∨ kind = "str" then k.toNat?.map .boom else none
+  | ["boom", k, kind] => if kind = "err" ∨ kind = "str" then k.toNat?.map .boom
+      else if kind = "goexit" then k.toNat?.map .boomGx else none
   | ["tick"] => some (.calls [.tick] [] true c)
   | ["ltick"] => some .ltick
+  | ["add", id, oc] => do pure (.add (← id.toNat?) (← parseOutcomes oc))
   | op =>
     if isCache then
       match op with
@@ -389,13 +396,20 @@ def parseSched (isCache : Bool) (c : CacheL) : List String → Option SOp
       | some call => some (.calls [call] [] false c)
       | none => none
 
+/-- the part of a tick's batch (in the order of the slot) that reaches its callback when the callbacks of `gx` call Goexit. -/
+def cutAtGoexit (gx : List Nat) : List (Nat × Nat) → List (Nat × Nat)
+  | [] => []
+  | x :: xs => if gx.contains x.1 then [x] else x :: cutAtGoexit gx xs
+
 /-- one line of a sched section over the wheel model or the timer table: new state and the observation. -/
 def schedCalls {T : Type} (ts : TStep T) (isCache : Bool) (a : ApiG T) (st : SchedSt)
     (cs : List Call) (res : List String) (sortRq : Bool) (cache' : CacheL) : ApiG T × SchedSt × String × List (Nat × Nat) :=
   let i := ApiG.issue ts 0 a cs
-  let cb : Cb CacheL := if isCache then cacheLCb else fun c _ _ => (c, [])
-  let q := ApiG.settle ts cb 1000000 i.1 cache' i.2.1
-  let errs := if isCache then [] else i.2.2.filterMap fun x =>
+  let cb : Cb (CacheL × Outcomes) := fun s k v =>
+    if st.cleaner then ((s.1, (cleanerCb s.2 k v).1), (cleanerCb s.2 k v).2)
+    else if isCache then (((cacheLCb s.1 k v).1, s.2), (cacheLCb s.1 k v).2) else (s, [])
+  let q := ApiG.settle ts cb 1000000 i.1 (cache', st.outcomes) i.2.1
+  let errs := if isCache || st.cleaner then [] else i.2.2.filterMap fun x =>
     match x.2.2 with
     | .errArgument => some "err=argument"
     | .errClosed => some "err=closed"
@@ -404,28 +418,37 @@ def schedCalls {T : Type} (ts : TStep T) (isCache : Bool) (a : ApiG T) (st : Sch
     if x.2.2 = .ok then (match x.2.1 with | .tick => none | c => some (rqTok c)) else none
   let rq := st.late ++ i.2.2.filterMap okTok ++ q.inner.filterMap okTok
   let rq := if sortRq then rq.foldr insertStr [] else rq
-  let armedFired := st.armed.filter fun k => q.fired.any (·.1 = k)
+  -- runTasks walks the batch of a tick on ONE goroutine: a callback that calls Goexit ends it (Deliver.lean,
+  -- goexit_loses_the_rest_of_its_tick); Drain and the immediate MoveTimer run every callback on a goroutine of its own
+  let fired := if cs = [.tick] then cutAtGoexit st.gx q.fired else q.fired
+  let armedFired := st.armed.filter fun k => fired.any (·.1 = k)
   let active := st.active ++ armedFired
-  let acc := st.acc ++ q.fired
+  let acc := st.acc ++ fired
   let out := if active.isEmpty then (if acc.isEmpty then [] else [canon acc]) else ["held"]
   let has := if isCache then
-      ["has=" ++ (if q.cb.data.isEmpty then "-" else ",".intercalate (((q.cb.data.map (·.1)).foldr insertNat []).map toString))]
+      ["has=" ++ (if q.cb.1.data.isEmpty then "-" else ",".intercalate (((q.cb.1.data.map (·.1)).foldr insertNat []).map toString))]
     else []
   let fuel := if q.left.isEmpty then [] else ["FUEL"]
   let toks := res ++ errs ++ (if rq.isEmpty then [] else ["rq=" ++ ",".intercalate rq]) ++ out ++ has ++ fuel
-  (q.api, { cache := q.cb, armed := st.armed.filter (fun k => !q.fired.any (·.1 = k)), active := active,
-            acc := if active.isEmpty then [] else acc, late := [] },
-   (if toks.isEmpty then "-" else joinSp toks), q.fired)
+  let armed' := st.armed.filter (fun k => !fired.any (·.1 = k))
+  let gx' := st.gx.filter (fun k => !fired.any (·.1 = k))
+  let acc' := if active.isEmpty then [] else acc
+  let st' : SchedSt := { cache := q.cb.1, cleaner := st.cleaner, outcomes := q.cb.2, armed := armed', active := active,
+                         gx := gx', acc := acc', late := [] }
+  (q.api, st',
+   (if toks.isEmpty then "-" else joinSp toks), fired)
 
 def schedStep {T : Type} (ts : TStep T) (isCache : Bool) (a : ApiG T) (st : SchedSt) :
     SOp → ApiG T × SchedSt × String × List (Nat × Nat)
   | .hold k =>
     if st.active.isEmpty then (a, { st with armed := if st.armed.contains k then st.armed else st.armed ++ [k] }, "armed", [])
     else (a, st, "busy", [])
-  | .boom _ => (a, st, "armed", [])
+  | .boom k => (a, { st with gx := st.gx.filter (· ≠ k) }, "armed", [])    -- replaces an earlier `boom k goexit`
+  | .boomGx k => (a, { st with gx := if st.gx.contains k then st.gx else st.gx ++ [k] }, "armed", [])
   | .release k =>
     schedCalls ts isCache a { st with armed := st.armed.filter (· ≠ k), active := st.active.filter (· ≠ k) } [] [] true st.cache
   | .calls cs res sortRq cache' => schedCalls ts isCache a st cs res sortRq cache'
+  | .add k o => schedCalls ts isCache a { st with outcomes := st.outcomes ++ [(k, o)] } [addCleanTask k] [] false st.cache
   | .ltick =>
     -- the tick and its callbacks as in `tick`; the callbacks' requests are printed by the next operation, first
     -- (they were pending before it started), in the order the callbacks issued them
@@ -443,7 +466,9 @@ def schedCover (isCache : Bool) (st : SchedSt) (op : List String) (sop : SOp) (f
   (match sop with
    | .hold _ => [if st.active.isEmpty then "sched-hold-armed" else "sched-hold-while-held"]
    | .boom _ => ["sched-callback-panics-" ++ op.getD 2 ""]
+   | .boomGx _ => ["sched-callback-goexit-armed"]
    | .ltick => ["sched-lazy-tick-replay-only"]
+   | .add _ o => ["sched-cleaner-add", if o.any id then "sched-cleaner-add-failing-task" else "sched-cleaner-add-task-that-succeeds"]
    | .release k =>
      (if st.active.contains k then ["sched-release-held"] else if st.armed.contains k then ["sched-release-armed-not-reached"] else ["sched-release-idle"]) ++
      (if st.active.contains k ∧ after.active.isEmpty ∧ st.acc.length ≥ 2 then ["sched-release-prints-2+"] else [])
@@ -454,6 +479,10 @@ def schedCover (isCache : Bool) (st : SchedSt) (op : List String) (sop : SOp) (f
         (if op = ["tick"] ∧ fired.length ≥ 2 then ["sched-tick-fires-2+-while-held"] else []) ++
         (if op = ["drain"] ∧ fired.length ≥ 1 then ["sched-drain-while-held"] else [])
       else []) ++
+     (if op = ["tick"] ∧ after.gx.length < st.gx.length then
+        ["sched-goexit-in-tick"] ++ (if (st.gx.length - after.gx.length) + 0 ≥ 1 ∧ fired.length ≥ 2 then ["sched-goexit-in-batch-of-2+-delivered"] else [])
+      else []) ++
+     (if op = ["drain"] ∧ after.gx.length < st.gx.length then ["sched-goexit-in-drain"] else []) ++
      (if st.active.isEmpty ∧ ¬ after.active.isEmpty then
         [if op = ["drain"] then "sched-drain-callback-held" else "sched-tick-callback-held"] ++
         (if fired.length ≥ 2 then ["sched-held-in-batch-of-2+"] else [])
@@ -484,11 +513,12 @@ def runSched (r : Report) (s : Section) : Report := Id.run do
   let c0 := CacheL.init limit ((kvStr s.cfg "expire" "0").toInt?.getD 0)
   let mut a : Api := Api.init interval n
   let mut sp : Spec.Api := Spec.Api.init interval
-  let mut st : SchedSt := { cache := c0 }
-  let mut stS : SchedSt := { cache := c0 }
+  let isCleaner := kvStr s.cfg "client" "wheel" = "cleaner"
+  let mut st : SchedSt := { cache := c0, cleaner := isCleaner }
+  let mut stS : SchedSt := { cache := c0, cleaner := isCleaner }
   let mut lastEv : Option Nat := none
   let pri := (kvStr s.cfg "pri" "").splitOn ","
-  let mut r := r.addCover (if isCache then "mode-sched-cache" else "mode-sched-wheel")
+  let mut r := r.addCover (if isCache then "mode-sched-cache" else if isCleaner then "mode-sched-cleaner" else "mode-sched-wheel")
   if isCache then r := r.addCover (if limit > 0 then s!"cache-limit-{limit}" else if limit < 0 then "cache-WithLimit-negative"
     else if hasLimitOpt then "cache-WithLimit-0" else "cache-no-WithLimit")
   if isCache ∧ kvStr s.cfg "name" "" ≠ "" then r := r.addCover "cache-WithName"
